@@ -137,6 +137,11 @@ def materialise(base, files):
             os.makedirs(p, exist_ok=True)
         else:
             os.makedirs(os.path.dirname(p), exist_ok=True)
+            if isinstance(content, dict) and "symlink" in content:
+                if os.path.lexists(p):
+                    os.remove(p)
+                os.symlink(content["symlink"].replace("{BASE}", base), p)
+                continue
             if isinstance(content, dict):
                 data = bytes.fromhex(content["bytes_hex"])
             else:
